@@ -201,6 +201,20 @@ Theorem C12_fill_value_full_R : forall tol x ns A a b z k, k < length x -> k < l
   (tol < nth k a 0 - nth k x 0 \/ tol < nth k x 0 - nth k b 0)%R -> func_get_full1 OR tol x ns A a b z true = z.
 Proof. exact get_full_fill. Qed.
 
+(* optional arguments of func_get (func_get_opt models the resolution of a=None, b=None, skip_out=None): an explicit
+   skip_out flag is always honoured, whatever bounds were given or left at their default [-1, 1]; without a flag points
+   are skipped iff both bounds were given; with the default box and skip_out=True outside points get z *)
+Theorem C12_skip_out_resolution : forall T (K : ops T) tol X A a b z,
+  (forall s, func_get_opt K tol X A a b z (Some s) =
+     func_get K tol X A (match a with Some l => l | None => repeat (fm1 K) (length A) end)
+                        (match b with Some l => l | None => repeat (o1 K) (length A) end) z s) /\
+  (forall la lb, func_get_opt K tol X A (Some la) (Some lb) z None = func_get K tol X A la lb z true) /\
+  func_get_opt K tol X A None None z None = func_get K tol X A (repeat (fm1 K) (length A)) (repeat (o1 K) (length A)) z false.
+Proof. intros. repeat split. Qed.
+Theorem C12_fill_value_default_box_R : forall tol x A z k, k < length x -> k < length A ->
+  (tol < -1 - nth k x 0 \/ tol < nth k x 0 - 1)%R -> func_get_opt OR tol [x] A None None z (Some true) = [z].
+Proof. exact get_opt_default_fill. Qed.
+
 (* tt_eq_dense: coefficients, re-sampling, integral (evaluation is C12_tt_eq_dense_get) *)
 Theorem C12_tt_eq_dense_int : forall Y idx, chain 1 Y 1 -> Forall (fun n => 2 <= n) (shape Y) -> inb (shape Y) idx ->
   tget OR (func_int_full OR csR (shape Y) (tfull OR Y)) idx = get OR (map (int_core OR csR snR Cheb) Y) idx.
